@@ -5,6 +5,7 @@ import Restli.Model.Ror2Reader
 import Restli.Model.RenderJson
 import Restli.Model.TreeReader
 import Restli.Model.QueryParams
+import Restli.Model.Norm
 /-! Driver glue for the codec model: s-expression parsing of schemas, types, values and
 exclusion specs; canonical printing of outcomes. -/
 namespace Restli.Codec
@@ -72,11 +73,16 @@ def declOfSexp : Sexp → Option Decl
     pure (.union (hn == "1") ml)
   | _ => none
 
-def envOfSexp : Sexp → Option Env
+/-- the schema as sent: defaults are the schema's literals -/
+def rawEnvOfSexp : Sexp → Option Env
   | .list (.atom "env" :: ds) => ds.mapM (fun (s : Sexp) => match s with
     | .list [.atom n, d] => (declOfSexp d).map (fun dd => (n, dd))
     | _ => none)
   | _ => none
+
+/-- the schema as the generated code holds it (`expandDefaults`: each default literal read as a
+document of its field's type) -/
+def envOfSexp (s : Sexp) : Option Env := (rawEnvOfSexp s).map expandDefaults
 
 /-- `(excl HEX…)`: directives -/
 def exclOfSexp : Sexp → Option PathSpec
